@@ -64,7 +64,12 @@ pub struct Handler {
 }
 
 /// Algorithm 2.B
-pub fn hash_2b(pw: &[u8], salt: &[u8], udata: &[u8]) -> [u8; 32] {
+pub fn hash_2b(pw: &[u8], salt: &[u8], udata: &[u8]) -> [u8; 32] { hash_2b_trace(pw, salt, udata).0 }
+
+/// Algorithm 2.B with the relation of each round's last ciphertext byte to (round - 32), from round 64 on
+/// ("lt" | "eq" | "gt"; the run stops at the first "lt" or "eq")
+pub fn hash_2b_trace(pw: &[u8], salt: &[u8], udata: &[u8]) -> ([u8; 32], Vec<&'static str>) {
+    let mut trace = Vec::new();
     let mut k: Vec<u8> = Sha256::new().chain_update(pw).chain_update(salt).chain_update(udata).finalize().to_vec();
     let mut i = 0usize;
     loop {
@@ -75,11 +80,15 @@ pub fn hash_2b(pw: &[u8], salt: &[u8], udata: &[u8]) -> [u8; 32] {
         let m: u32 = e[..16].iter().map(|b| *b as u32).sum::<u32>() % 3;
         k = match m { 0 => Sha256::digest(&e).to_vec(), 1 => Sha384::digest(&e).to_vec(), _ => Sha512::digest(&e).to_vec() };
         i += 1;
-        if i >= 64 && (*e.last().unwrap() as usize) <= i - 32 { break; }
+        if i >= 64 {
+            let last = *e.last().unwrap() as usize;
+            trace.push(if last < i - 32 { "lt" } else if last == i - 32 { "eq" } else { "gt" });
+            if last <= i - 32 { break; }
+        }
     }
     let mut out = [0u8; 32];
     out.copy_from_slice(&k[..32]);
-    out
+    (out, trace)
 }
 
 fn aes256_nopad(key: &[u8], data: &[u8]) -> Vec<u8> {
